@@ -452,7 +452,12 @@ func replayOnce(P *Program, r *Result, cand int) (note, suffix string) {
 			st, sout = st2, sout2
 		}
 	}
-	_ = sout
+	if st == "error" {
+		info.PinCheck = "error: " + firstLines(sout, 3)
+		if os.Getenv("GVC_DEBUG") != "" {
+			os.WriteFile("/tmp/gvc-pin-debug.smt2", []byte(script), 0644)
+		}
+	}
 	info.PinCheck = st
 	switch st {
 	case "sat":
@@ -524,7 +529,7 @@ func pinTerms(vc *VC, m *Model, r *Result, out string) ([]string, string) {
 	pin := func(name string) {
 		if v := m.get(name); v != nil {
 			s := v.String()
-			if strings.Contains(s, "lambda") || strings.Contains(s, "as-array") {
+			if strings.Contains(s, "lambda") || strings.Contains(s, "as-array") || strings.Contains(s, "!val!") {
 				return
 			}
 			pins = append(pins, fmt.Sprintf("(assert (= %s %s))", name, s))
